@@ -116,4 +116,18 @@ def build(tier):
         tuples = [(("i32" if "T" in conc else a), ("St" if "U" in conc else b)) for a, b in itertools.product(ARGS[:5], repeat=2)]
         tuples = sorted(set(tuples))
         out.append(gcase({"family": "generic-concrete", "concrete": conc}, td, params, 2, tuples, concrete_names=keep))
+    # concrete(..) split over two attributes
+    td = TypeDef("G", "struct", "named", [Field("T", "t"), Field("Vec<U>", "u")], attrs=["#[ts(concrete(T = i32))]", "#[ts(concrete(U = St))]"], generics=["T", "U"], derives=TS_ONLY, vals=False)
+    out.append(gcase({"family": "generic-concrete", "concrete": ["T", "U"], "split": True}, td, [], 2, [("i32", "St")], concrete_names=(False, False)))
+    td = TypeDef("G", "struct", "named", [Field("T", "t"), Field("Vec<U>", "u"), Field("Option<V>", "v")], attrs=["#[ts(concrete(T = i32))]", "#[ts(concrete(V = St))]"], generics=["T", "U", "V"], derives=TS_ONLY, vals=False)
+    out.append(gcase({"family": "generic-concrete", "concrete": ["T", "V"], "split": True}, td, [("U", None)], 3, [("i32", a, "St") for a in ARGS[:6]], concrete_names=(False, True, False)))
+    # const parameters with a default, lifetimes with bounds
+    tdc = TypeDef("G", "struct", "named", [Field("[T; N]", "arr"), Field("T", "t")], generics=["T"], generics_decl="<T, const N: usize = 2>", generics_use="<T, N>", derives=TS_ONLY, vals=False)
+    out.append(gcase({"family": "generic-const-default"}, tdc, [("T", None)], 1, [(a,) for a in ARGS[:6]], fixed_suffix="3"))
+    tdc2 = TypeDef("G", "struct", "named", [Field("[i32; N]", "arr")], generics=[], generics_decl="<const N: usize = 4>", generics_use="<N>", derives=TS_ONLY, vals=False)
+    out.append(Case({"family": "generic-const-default", "use": "only-const"}, [tdc2], ['ctx.check_same_string("const-default", &|| <G as TS>::name(), &|| "G".to_string());', 'ctx.check_same_string("const-default", &|| <G<4> as TS>::decl(), &|| <G<1> as TS>::decl().replace("[number]", "[number, number, number, number]"));'], decl_types=["G<4>"]))
+    tdl3 = TypeDef("G", "struct", "named", [Field("&'a T", "r"), Field("std::borrow::Cow<'b, str>", "c")], generics=["T"], generics_decl="<'a, 'b: 'a, T: 'a>", generics_use="<'a, 'b, T>", derives=TS_ONLY, vals=False)
+    out.append(gcase({"family": "generic-lifetime-const", "use": "lifetime-bounds"}, tdl3, [("T", None)], 1, [(a,) for a in ARGS[:5]], fixed_prefix="'static, 'static"))
+    tdbd = TypeDef("G", "struct", "named", [Field("T", "t")], attrs=['#[ts(bound = "T: TS")]'], generics=["T"], derives=TS_ONLY, vals=False)
+    out.append(gcase({"family": "generic-bounds", "use": "ts-bound-attr"}, tdbd, [("T", None)], 1, [(a,) for a in ARGS[:5]]))
     return out
